@@ -2,7 +2,11 @@
 
 Engine: spec/ConsCache.tla (heap, handles, per-class weak tables keyed with array
 ADDRESSES, address reuse, alpha-mangling, pickling, reinterpretation under reflect;
-interned domains / parametrised ops / parametrised term types as a second lens).
+interned domains / parametrised ops / parametrised term types as a second lens; lazy terms
+built through parametrised ops over fresh array domains - x[:, j], x.sum(1, True),
+x.reshape(..) - with the op instance, domain and parametrised-type caches observed as a
+third lens: anything that keeps such an op or domain alive after the term is gone shows up
+as table growth / a live weakref after Drop + Collect).
 
   M    TLC checks Unique / WeakLive / WeakEmpty / NoStale / NoDangling / AddrInjective on
        every reachable state up to the depth bound (one representative per class of
@@ -332,7 +336,7 @@ def reduce_violations(viol):
         if (len(v["history"]), v["history"]) < (len(g["best"]["history"]), g["best"]["history"]):
             g["best"] = v
     out = []
-    for k, g in sorted(groups.items(), key=lambda kv: (len(kv[1]["best"]["history"]), str(kv[0]))):
+    for k, g in sorted(groups.items(), key=lambda kv: (kv[0][0] != "weak_final", len(kv[1]["best"]["history"]), str(kv[0]))):
         v = dict(g["best"])
         v["sig"] = "%s|%s%s" % (v.get("on", ""), v["history"], " [trace]" if v["engine"].startswith("trace") else "")
         v["detail"] = dict(v.get("detail") or {}, instances=g["n"], history=v["history"])
